@@ -1,14 +1,15 @@
 package main
 
 import (
-	"regexp"
 	"fmt"
 	"go/ast"
 	"go/importer"
 	"go/parser"
 	"go/token"
 	"go/types"
+	"regexp"
 	"sort"
+	"strconv"
 	"strings"
 	"sync"
 )
@@ -314,7 +315,15 @@ func (td *typeDecls) nameFor(v Value, depth int) string {
 						}
 						ftype = td.nameFor(fo.attrs["Type"], depth+1)
 					}
-					fs = append(fs, fname+" "+ftype)
+					tag := ""
+					if tl, ok := o.attrs["#tags"].(*VList); ok && i < len(tl.Elems) {
+						if ts, isS := tl.Elems[i].(VStr); isS {
+							if l, isLit := ts.isLit(); isLit && l != "" {
+								tag = " " + strconv.Quote(l)
+							}
+						}
+					}
+					fs = append(fs, fname+" "+ftype+tag)
 				}
 				return "struct{ " + strings.Join(fs, "; ") + " }"
 			}
@@ -672,7 +681,12 @@ func (td *typeDecls) declare(name string, o *VOpaque, depth int) {
 						ftype = td.nameFor(&VOpaque{Origin: eo.Origin + ".Type()"}, depth+1)
 					}
 				}
-				fs = append(fs, fname+" "+ftype)
+				// the first field of every struct type of the abstract input space carries a tag (interp.go structTag)
+				tag := ""
+				if i == 0 {
+					tag = " " + strconv.Quote(structTag)
+				}
+				fs = append(fs, fname+" "+ftype+tag)
 			}
 		}
 		emit(fmt.Sprintf("struct{ %s }", strings.Join(fs, "; ")))
